@@ -313,6 +313,19 @@ VARIANTS += [
    "		vbh, err := f.getBlockHandle(vh.BlockNum)\n		if err != nil {\n			return nil, err\n		}", "		f.valueBlockNum = vh.BlockNum\n		vbh, err := f.getBlockHandle(vh.BlockNum)\n		if err != nil {\n			return nil, err\n		}"),
  V("c18-g3-any-read-error-is-eof", "C18", "C18.G3", "record/record.go",
    "			if err == io.EOF && !wantFirst {\n				r.invalidOffset", "			if !wantFirst {\n				r.invalidOffset"),
+ V("c04-k2-apply-keeps-stale-rangekey-cache", "C04", "C04.K2", "batch.go",
+   "					b.rangeKeys = nil\n					b.rangeKeysSeqNum = 0\n					if b.rangeKeyIndex == nil {", "					if b.rangeKeyIndex == nil {"),
+ V("c04-k2-deferred-rangedel-keeps-stale-cache", "C04", "C04.K2", "batch.go",
+   "		b.tombstones = nil\n		b.tombstonesSeqNum = 0\n		// Range deletions are rare", "		// Range deletions are rare"),
+ V("c01-o1-seqnum-before-view", "C01", "C01.O1", "get.go",
+   "	readState := d.loadReadState()", "	preSeq := d.mu.versions.visibleSeqNum.Load()\n	_ = preSeq\n	readState := d.loadReadState()"),
+ V("c01-t1-apply-accepts-unknown-kinds", "C01", "C01.T1", "batch.go",
+   "				InternalKeyKindSingleDelete, InternalKeyKindSetWithDelete, InternalKeyKindDeleteSized:\n				// fallthrough\n			default:\n				// Note In some circumstances this might be temporary memory\n				// corruption that can be recovered by discarding the batch and\n				// trying again. In other cases, the batch repr might've been\n				// already persisted elsewhere, and we'll loop continuously\n				// trying to commit the same corrupted batch. The caller is\n				// responsible for distinguishing.\n				return errors.Wrapf(ErrInvalidBatch, \"unrecognized kind %v\", kind)\n			}\n			if b.index != nil {",
+   "				InternalKeyKindSingleDelete, InternalKeyKindSetWithDelete:\n				// fallthrough\n			default:\n				// accept\n			}\n			if b.index != nil {"),
+ V("c20-o2-tail-write-ignores-error", "C20", "C20.O2", "record/log_writer.go",
+   "	if n := len(data); err == nil && n > 0 {", "	if n := len(data); n > 0 {"),
+ V("c20-o3-waiter-released-before-error-stored", "C20", "C20.O3", "record/log_writer.go",
+   "		*slot.err = err\n		slot.wg = nil\n		slot.err = nil", "		slot.wg = nil"),
  V("c17-g1-zero-seqnum-in-any-stripe", "C17", "C17.G1", "internal/compact/iterator.go",
    "	return i.cfg.IsBottommostDataLayer && snapshotIdx == 0", "	return i.cfg.IsBottommostDataLayer"),
  V("c17-g2-elide-in-non-last-stripe", "C17", "C17.G2", "internal/compact/iterator.go",
@@ -338,3 +351,8 @@ VARIANTS += [
  V("c18-g2-eof-mid-record", "C18", "C18.G2", "record/record.go",
    "			if !wantFirst || r.end != r.n {", "			if r.end != r.n {"),
 ]
+
+# Further variants live in variants_extra_*.py (same namespace: they append to VARIANTS).
+import glob as _glob, os as _os
+for _f in sorted(_glob.glob(_os.path.join(_os.path.dirname(_os.path.abspath(__file__)), "variants_extra_*.py"))):
+    exec(compile(open(_f).read(), _f, "exec"))
